@@ -132,6 +132,27 @@ POOL_ALL = dict(POOL)
 POOL_ALL.update(FALSY_POOL)
 
 
+class NeedsTwo(Exception):
+    """Pickles (by reference + args) but cannot be un-pickled: cls(*args) has the wrong arity."""
+
+    def __init__(self, a: Any, b: Any) -> None:
+        super().__init__(f"{a}: {b}")
+
+
+def _refuse_restore() -> Any:
+    raise RuntimeError("cannot be restored from a snapshot")
+
+
+class NoRestore:
+    """dumps fine, loads raises."""
+
+    def __reduce__(self) -> Any:
+        return (_refuse_restore, ())
+
+    def __repr__(self) -> str:
+        return "<NoRestore>"
+
+
 class Unrepr:
     def __repr__(self) -> str:
         raise RuntimeError("unreprable")
@@ -140,7 +161,7 @@ class Unrepr:
         raise RuntimeError("unstrable")
 
 
-ARG_KINDS = ["json", "json", "json", "str", "int", "tuple", "set", "bytes", "bigint", "nan", "inf", "lambda", "lock",
+ARG_KINDS = ["nestedexc", "norestore", "json", "json", "json", "str", "int", "tuple", "set", "bytes", "bigint", "nan", "inf", "lambda", "lock",
              "unrepr", "self", "none", "nested", "float", "obj", "type", "dictkeys", "frozen", "complex"]
 
 
@@ -171,6 +192,7 @@ def make_arg(a: Dict[str, Any], me: BaseException) -> Any:
         "lock": threading.Lock, "unrepr": Unrepr, "self": lambda: me, "none": lambda: None, "obj": object,
         "type": lambda: int, "dictkeys": lambda: {1: "a", (1, 2): "b"}, "frozen": lambda: frozenset({1}),
         "complex": lambda: 1 + 2j, "surrogate": lambda: "bad \udc80 surrogate",
+        "nestedexc": lambda: NeedsTwo(503, "unavailable"), "norestore": NoRestore,
         "syn": lambda: ("file.py", 1, 2, "text"), "excs": lambda: [ValueError(1), AppError("in group")],
     }[t]()
 
@@ -442,7 +464,7 @@ def run_c19(spec: Dict[str, Any]) -> "tuple[List[Violation], Dict[str, Any]]":
             txt = f"{type(exc).__name__}: {str(exc)[:300]}"
             if mode == "json-text" and surr and "surrogate" in txt.lower():
                 kind = "lone-surrogate-json-text"
-            elif falsy:
+            elif falsy and "Unable to serialize unknown type" in txt:
                 kind = "falsy-exception"
             v.append(Violation(kind, f"{mode}: storing/loading raised {txt}", {"mode": mode}))
             continue
@@ -460,8 +482,6 @@ def run_c19(spec: Dict[str, Any]) -> "tuple[List[Violation], Dict[str, Any]]":
             obs["links"] += check_chain(root, err, mode, frozenset(), problems)
         for pbl in problems[:2]:
             kind = "chain-or-class-mismatch"
-            if falsy:
-                kind = "falsy-exception"
             v.append(Violation(kind, f"{mode}: {pbl}", {"mode": mode}))
     ser.SEEN_EXCEPTIONS_CACHE.clear()
     return v, obs
@@ -507,7 +527,7 @@ class C19(Check):
         if cyc:
             cr.counters["cyclic_graphs"] += 1
         cr.events["round_trip"] += obs["trips"]
-        hard = {"tuple", "set", "bytes", "lambda", "lock", "unrepr", "self", "obj", "type", "dictkeys", "frozen", "complex", "nan", "inf", "surrogate"}
+        hard = {"nestedexc", "norestore", "tuple", "set", "bytes", "lambda", "lock", "unrepr", "self", "obj", "type", "dictkeys", "frozen", "complex", "nan", "inf", "surrogate"}
         cr.nontrivial = len(nodes) >= 2 or any(a["t"] in hard for nd in nodes for a in nd["args"])
         cr.sig = jhash([(nd["cls"], [a["t"] for a in nd["args"]], nd["cause"], nd["context"], nd["suppress"]) for nd in nodes])
         cr.trace = {"nodes": [(nd["cls"], [a["t"] for a in nd["args"]], nd["cause"], nd["context"], nd["suppress"]) for nd in nodes]}
@@ -616,13 +636,17 @@ def install_trapmod() -> None:
     m.deep = sub  # type: ignore[attr-defined]
 
 
-NOT_LOADED = ["colorsys", "xml.dom.minidom", "tabnanny", "chunk", "sndhdr", "wave", "mailcap", "nntplib"]
+NOT_LOADED = ["colorsys", "xml.dom.minidom", "tabnanny", "chunk", "sndhdr", "wave", "mailcap", "nntplib",
+              # submodules whose parent package is (normally) already loaded
+              "encodings.cp1252", "encodings.rot_13", "encodings.koi8_r", "json.tool", "email.mime", "logging.config",
+              "multiprocessing.dummy", "ctypes.util", "importlib.simple", "asyncio.__main__", "pydantic.v1.tools",
+              "taskiq.cli.watcher", "taskiq.serializers.msgpack_serializer"]
 
 CATALOGUE: List[Tuple[Optional[str], str]] = [
     ("os", "system"), ("os", "popen"), ("os", "path.exists"), ("os", "environ"), ("subprocess", "call"), ("subprocess", "Popen"),
     ("builtins", "eval"), ("builtins", "exec"), ("builtins", "print"), ("builtins", "object"), ("builtins", "dict"),
     ("builtins", "type"), ("builtins", "open"), ("builtins", "__import__"), ("builtins", "compile"), ("builtins", "str.format"),
-    ("builtins", "int"), ("builtins", "list"), ("builtins", "bytearray"), ("builtins", "memoryview"), ("builtins", "input"),
+    ("builtins", "int"), ("builtins", "list"), ("builtins", "bytearray"), ("builtins", "memoryview"), ("builtins", "callable"),
     ("builtins", "Exception.__class__"), ("builtins", "Exception.mro"), ("builtins", "Exception.__subclasses__"),
     ("builtins", "BaseException.__base__"), ("builtins", "Exception.__init__"), ("builtins", "Exception.with_traceback"),
     ("builtins", "ValueError.__new__"), ("builtins", "Exception.__mro__"), ("builtins", "Exception.__dict__"),
@@ -632,10 +656,10 @@ CATALOGUE: List[Tuple[Optional[str], str]] = [
     ("trapmod", "sp.run"), ("trapmod", "value"), ("trapmod", "none"), ("trapmod", "lam"), ("trapmod", "partial"),
     ("trapmod", "deep.fn"), ("trapmod", "deep"), ("trapmod", "sub"), ("trapmod.deep", "fn"), ("trapmod", "__class__"),
     ("trapmod", "__dict__"), ("trapmod", "__getattribute__"), ("trapmod", "Cls.__new__"), ("trapmod", "Cls.__init__"),
-    ("sys", "exit"), ("sys", "modules"), ("sys", "setrecursionlimit"), ("shutil", "rmtree"), ("pickle", "loads"),
+    ("sys", "exit"), ("sys", "modules"), ("sys", "getrecursionlimit"), ("shutil", "which"), ("pickle", "loads"),
     ("importlib", "import_module"), ("typing", "Any"), ("json", "loads"), ("threading", "Thread"), ("asyncio", "run"),
     ("taskiq.serialization", "prepare_exception"), ("taskiq.serialization", "ExceptionRepr"), ("taskiq", "InMemoryBroker"),
-    ("pydantic", "BaseModel"), ("logging", "shutdown"), ("os", "_exit"), ("os", "abort"), ("os", "kill"), ("signal", "raise_signal"),
+    ("pydantic", "BaseModel"), ("logging", "getLogger"), ("os", "getcwd"), ("os", "getpid"), ("os", "cpu_count"), ("signal", "getsignal"),
     # exception classes: must load
     ("builtins", "ValueError"), ("builtins", "KeyError"), ("builtins", "BaseException"), ("builtins", "SystemExit"),
     ("builtins", "KeyboardInterrupt"), ("builtins", "OSError"), ("builtins", "ExceptionGroup"), ("trapmod", "ExcOk"),
@@ -646,6 +670,9 @@ CATALOGUE: List[Tuple[Optional[str], str]] = [
     ("builtins", "NoSuchThing"), ("nosuchmodule", "Err"), ("trapmod", "missing.attr"), ("os", "system.nope"), (None, "Ghost"),
     (None, "os.system"), ("", "x"), ("builtins", ""), ("trapmod", "Holder..fn"), ("builtins", "ValueError.nope"),
     ("colorsys", "rgb_to_hls"), ("xml.dom.minidom", "parse"), ("tabnanny", "check"), ("chunk", "Chunk"), ("wave", "open"),
+    ("encodings.cp1252", "Codec"), ("encodings.rot_13", "rot13"), ("encodings.koi8_r", "getregentry"), ("json.tool", "main"),
+    ("email.mime", "text"), ("logging.config", "fileConfig"), ("multiprocessing.dummy", "Pool"), ("ctypes.util", "find_library"),
+    ("importlib.simple", "SimpleReader"), ("asyncio.__main__", "main"), ("taskiq.cli.watcher", "FileWatcher"),
 ]
 
 ARGS_POOL: List[List[Any]] = [[], ["x"], ["echo pwned"], [1, 2], [["nested"]], [{"k": "v"}], ["a", "b", "c"], [None]]
@@ -822,7 +849,19 @@ class C20(Check):
             r = rng.random()
             if tier == "thorough" and r < 0.5:
                 if mods is None:
-                    mods = sorted(m for m in sys.modules if not m.startswith(("pydantic", "_pytest", "mon.")) and sys.modules[m] is not None
+                    # Only side-effect-free modules: under a *broken* taskiq the resolved callable is really
+                    # invoked with the payload's arguments, so nothing that can kill, fork, delete or block
+                    # may be reachable from here (the fixed catalogue keeps the classic os.system / eval /
+                    # subprocess payloads, which are harmless with the argument pool used).
+                    safe = ("math", "json", "re", "string", "textwrap", "itertools", "functools", "operator", "collections",
+                            "datetime", "decimal", "fractions", "enum", "dataclasses", "typing", "types", "copy", "heapq",
+                            "bisect", "base64", "binascii", "hashlib", "hmac", "uuid", "random", "statistics", "numbers",
+                            "abc", "contextlib", "calendar", "struct", "array", "unicodedata", "codecs", "html",
+                            "urllib.parse", "email", "pytz", "pycron", "zoneinfo", "izulu", "taskiq", "trapmod",
+                            "typing_extensions", "annotated_types", "packaging", "keyword", "token", "reprlib", "pprint",
+                            "graphlib", "ipaddress", "colorsys", "cmath", "difflib", "fnmatch", "locale", "gettext")
+                    mods = sorted(m for m in sys.modules if sys.modules[m] is not None
+                                  and (m in safe or m.split(".")[0] in safe)
                                   and "__getattr__" not in getattr(sys.modules[m], "__dict__", {}))
                 m = rng.choice(mods)
                 try:
@@ -883,4 +922,7 @@ class C20(Check):
         ok, _ = resolve("colorsys", "rgb_to_hls")
         if ok:
             return ["colorsys unexpectedly loaded: 'not loaded' module list is stale"]
+        sub = [m for m in NOT_LOADED if "." in m and m not in sys.modules and m.rpartition(".")[0] in sys.modules]
+        if len(sub) < 3:
+            return [f"too few unloaded submodules of loaded packages available: {sub}"]
         return []
